@@ -311,6 +311,34 @@ Theorem C03_composer_post_marker_bare_eq :
 Proof. exact Composer.VersionFacts.post_marker_bare_eq. Qed.
 Print Assumptions C03_composer_post_marker_bare_eq.
 
+Theorem C03_composer_marker_level_lt :
+  forall (a : N) (ds : list N) (sfx1 w1 : bytes) (k1 : option N) (sfx2 w2 : bytes) (k2 : option N),
+  (a < two63)%N ->
+  Forall (fun x : N => (x < two63)%N) ds ->
+  Datatypes.length ds <= 4 ->
+  Composer.VersionFacts.marked sfx1 w1 k1 ->
+  Composer.VersionFacts.marked sfx2 w2 k2 ->
+  (Composer.Version.stab_of w1 < Composer.Version.stab_of w2)%Z ->
+  exists c1 c2 : Composer.Version.core,
+    Composer.Version.parse_core (Composer.VersionFacts.numtext (a :: ds) ++ sfx1) = Some c1 /\
+    Composer.Version.parse_core (Composer.VersionFacts.numtext (a :: ds) ++ sfx2) = Some c2 /\
+    Composer.Version.cmp_core c1 c2 = Lt.
+Proof. exact Composer.VersionFacts.marker_level_lt. Qed.
+Print Assumptions C03_composer_marker_level_lt.
+
+(* dev < alpha = a < beta = b < RC = rc < patch = pl (the levels, not their numbers) *)
+Theorem C03_composer_marker_words_order :
+  (Composer.Version.stab_of $"dev" < Composer.Version.stab_of $"alpha" /\
+   Composer.Version.stab_of $"alpha" = Composer.Version.stab_of $"a" /\
+   Composer.Version.stab_of $"alpha" < Composer.Version.stab_of $"beta" /\
+   Composer.Version.stab_of $"beta" = Composer.Version.stab_of $"b" /\
+   Composer.Version.stab_of $"beta" < Composer.Version.stab_of $"RC" /\
+   Composer.Version.stab_of $"RC" = Composer.Version.stab_of $"rc" /\
+   Composer.Version.stab_of $"RC" < Composer.Version.stab_of $"patch" /\
+   Composer.Version.stab_of $"patch" = Composer.Version.stab_of $"pl")%Z.
+Proof. exact Composer.VersionFacts.marker_words_order. Qed.
+Print Assumptions C03_composer_marker_words_order.
+
 Theorem C03_composer_fifth_component_ignored :
   forall a b c d e1 e2 : N,
   Forall (fun x : N => (x < two63)%N) [a; b; c; d; e1; e2] ->
